@@ -49,6 +49,9 @@ fn same_sem(a: &peppi::game::immutable::Game, b: &peppi::game::immutable::Game) 
 fn check(ctx: &Ctx, c: &Case, label: &str, counting: bool) -> Result<(), Fail> {
 	let m = &c.m;
 	let bytes = super::encode_padded(m, c.pad);
+	if c.pad == 0 {
+		super::sibling_history(m, &bytes);
+	}
 	if counting {
 		ctx.eval();
 		let f = classify(ctx, m);
